@@ -168,6 +168,22 @@ CLAIMED['C15'] = dict(
          'x points (exact for integer / discrete / categorical, conditioning-aware tolerance for doubles), not by one end-to-end theorem. '
          'ProblemAndTrialsScaler and safety-metric warping are not covered.'),
    note=CONV_NOTE, technique='Rocq proof (real analysis with ln/exp monotonicity; list lemmas for one-hot) + translator + vm_compute correspondence + round-trip monitor', design='5/C15')
+CLAIMED['C13'] = dict(
+   text=('Theorems (all closed under the global context): the generic restart theorem - if dump -> fresh instance -> load yields a state related '
+         'by a step-preserved, output-determining relation, then restarts inserted before ANY subset of steps of ANY history change no output '
+         '(C13_restart_indistinguishable); str(int)/int(str) round trip for every integer and for "None or int" (via the standard library\'s '
+         'decimal conversion lemmas); grid search: load(dump s) = s, the mixed-radix index->point map enumerates every grid point exactly once '
+         'in every period (C13_grid_every_point_once_per_period) and with arbitrary batch sizes and restarts the suggestions are the grid points '
+         'in index order (C13_grid_batches_and_restarts); quasi-random: exact restart for any position-determined sequence; eagle: the firefly '
+         'pool returns in the same dict order for the json.dumps options found in the source today, REFUTED for sort_keys; evolutionary '
+         'template and CMA-ES: exact restart of (population, counter) / (optimiser state, queue), and the dumps WITHOUT counter / queue (the '
+         'pinned code) REFUTED with kernel-checked histories = two defects repaired by fix: commits. C13_state_is_dumped: over lists regenerated '
+         'from the designers on every run, every attribute changed by suggest()/update() is read by dump() and set by load(), and load() reads '
+         'exactly the keys dump() writes. PARTIAL: the designers\' suggestion logic, numpy/scipy RNG state restore and the JSON text layer are '
+         'not modelled; they are decided by differential runs (live instance vs restart before every / one / random steps) at designer, policy '
+         '(real study metadata) and service (SQLite file, new servicer per restart) level.'),
+   note=BASE_TB + ' harness/translate/serial.py (Python-ast, fail-closed) regenerates coq/Gen/Serial.v; its list of members that are mutated through method calls (eagle pool/rng/initial designer, CMA queue/optimiser) is hand-written. Halton / numpy Generator / random.Random are taken as deterministic functions of seed and position.',
+   technique='Rocq proof (simulation argument over histories with restarts; mixed-radix bijection; decimal round trip) + translator + vm_compute correspondence + differential restart monitor', design='5/C13')
 ALL = ['C%02d' % i for i in range(1, 21)]
 m = {
  'version': 1,
